@@ -5,6 +5,11 @@ Families:
            dyadic coefficients; the Lean model (front end over Q, kernel on Float with the PCG32 model)
            must predict count, every state, every value, the spin flags, best.value and the arguments
            handed to the C extension (captured at `qubovert.sim._anneal.c_anneal_*`)
+  mapping  (inside `anneal`) labelled spin objects whose label -> integer mapping was set by the user (set_mapping /
+           set_reverse_mapping; a permutation handed over in an order that is not the order of the integers)
+  history  2-4 calls on ONE Matrix / labelled object with in-place edits in between (grow with larger labels, cancel,
+           `*=` a number): every call is compared with the model of the cumulative history and checked by the oracle
+           (state domain 0..max_index of the object now)
   kernel   arbitrary `float` couplings: the captured C arguments are replayed through the kernel model
            alone; states and the bit patterns of the values must agree
   pcg      first outputs of pcg32 for a seed, through a 1-spin model (indirect) — covered by `anneal`
@@ -206,6 +211,23 @@ def num_of(s, style):
 
 # ------------------------------------------------------------------ implementation side
 
+def apply_mapping(case, obj, L):
+    """case["mapping"] = {"how": "set_mapping" | "set_reverse_mapping", "pairs": [[label id, integer], ...]}: the
+    pairs are handed over in this (insertion) order, which need not be the order of the integers"""
+    m = case.get("mapping")
+    if m:
+        if m["how"] == "set_mapping":
+            obj.set_mapping({L.lab(v): k for v, k in m["pairs"]})
+        else:
+            obj.set_reverse_mapping({k: L.lab(v) for v, k in m["pairs"]})
+
+def mapping_by_index(case):
+    """the user-set mapping as the model reads it: labels by integer index"""
+    m = case.get("mapping")
+    if not m:
+        return None
+    return [v for v, _k in sorted(m["pairs"], key=lambda p: p[1])]
+
 def build_obj(case):
     L = Labels(case["labels"])
     if case["kind"] == "dict":
@@ -213,6 +235,7 @@ def build_obj(case):
     o = cls_of(case["kind"])()
     for k, v in case["ops"]:
         o[L.key(k)] += num_of(v, case["num"])
+    apply_mapping(case, o, L)
     return o, L
 
 def schedule_args(case, obj):
@@ -249,9 +272,10 @@ def canon_call(c):
         out.update(nc=list(c["nc"]), terms=list(c["terms"]), cs=[fs(x) for x in c["cs"]])
     return out
 
-def run_impl(case):
+def run_impl(case, prebuilt=None):
+    """prebuilt = (obj, Labels): call on an existing object (histories) instead of building one from case["ops"]"""
     import qubovert.sim as sim
-    obj, L = build_obj(case)
+    obj, L = prebuilt if prebuilt is not None else build_obj(case)
     kw, sched_data = schedule_args(case, obj)
     init = None
     if case["init"] is not None:
@@ -279,7 +303,7 @@ def run_impl(case):
 def model_line(case, sched_data):
     return {"op": "c11_anneal", "fn": case["fn"], "kind": case["kind"], "ops": case["ops"],
             "num_anneals": case["num_anneals"], "sched": sched_data, "init": case["init"],
-            "in_order": case["in_order"], "seed": case["seed"]}
+            "in_order": case["in_order"], "seed": case["seed"], "mapping": mapping_by_index(case)}
 
 def canon_model(m):
     if "results" in m:
@@ -327,7 +351,7 @@ def oracle(case, canon, res, obj, L, detail):
     matrix = case["kind"] in MATRIX
     # `variables`: labels that ever carried a nonzero coefficient in the squashed input (what `variables` of a model
     # object keeps after a cancellation); `cur`: labels of the terms present now.  The exact domain:
-    #   spin function, Matrix input        0..max_index of the object (its `variables`, cancelled ones included)
+    #   spin function, Matrix input        0..max(`variables`) (the object's max_index now, cancelled labels included)
     #   spin function, labelled / dict     `variables`
     #   boolean function                   the conversion builds a fresh spin model from the terms present now:
     #                                      Matrix input -> 0..max(cur); labelled input -> cur; dict -> `variables`
@@ -336,8 +360,8 @@ def oracle(case, canon, res, obj, L, detail):
     cur = {i for k in poly for i in k}
     if matrix:
         if spin:
-            mi = obj.max_index
-            domain = set(range(mi + 1)) if mi is not None else set()
+            # max_index of the object *now*: the largest label that ever carried a nonzero coefficient
+            domain = set(range(max(variables) + 1)) if variables else set()
         else:
             domain = set(range(max(cur) + 1)) if cur else set()
     elif spin or case["kind"] == "dict":
@@ -409,6 +433,130 @@ def oracle(case, canon, res, obj, L, detail):
         if res.best is None or Fraction(res.best.value) != min(vals) or not any(res.best is r for r in res):
             return ("C11:best", "best.value %s, minimum over results %s" % (getattr(res.best, "value", None), min(vals)))
     return None
+
+# ------------------------------------------------------------------ user-set mappings, histories on one object
+
+LABELLED_SPIN = {"quso": ["QUSO"], "puso": ["QUSO", "PUSO", "PCSO"]}
+
+def gen_mapping_case(rng):
+    """a labelled spin object whose label -> integer mapping the user set (set_mapping / set_reverse_mapping): a
+    permutation of 0..n-1 over its variables, handed over in an insertion order that is not the order of the integers"""
+    fn = rng.choice(["quso", "puso"])
+    while True:
+        c = gen_case(rng, {"fn": fn, "kind": rng.choice(LABELLED_SPIN[fn]),
+                           "shape": rng.choice(["general", "general", "general", "linear", "cancelled"])})
+        _poly, variables, _bad = input_facts(c)
+        if len(variables) >= 2:
+            break
+    labs = sorted(variables)
+    idx = list(range(len(labs)))
+    rng.shuffle(idx)                       # label labs[i] gets integer idx[i]
+    pairs = [[l, k] for l, k in zip(labs, idx)]
+    rng.shuffle(pairs)                     # insertion order of the dict handed to set_(reverse_)mapping
+    if sorted(pairs, key=lambda p: p[1]) == pairs and len(pairs) > 1:
+        pairs.reverse()
+    c["mapping"] = {"how": rng.choice(["set_mapping", "set_reverse_mapping"]), "pairs": pairs}
+    c["shape"] = "mapping"
+    c["num_anneals"] = rng.choice([1, 1, 2, 3])
+    if c["init"] is not None:
+        c["init"] = [[i, rng.choice([1, -1])] for i in labs]
+    return c
+
+HIST_KINDS = {"quso": ["QUSOMatrix", "QUSOMatrix", "QUSO"], "puso": ["PUSOMatrix", "PUSOMatrix", "QUSOMatrix", "PUSO", "PCSO"],
+              "qubo": ["QUBOMatrix", "QUBO"], "pubo": ["PUBOMatrix", "QUBOMatrix", "PUBO"]}
+
+def gen_history(rng):
+    """2-4 calls on ONE object with in-place edits in between: grow (terms with larger labels), cancel, `*=` a
+    number, add.  Each call is an `anneal` case whose "ops" is the cumulative `+=` history (a `*= c` is recorded as
+    `self[k] += self[k]*(c-1)` for every key present, which is what `self[k] *= c` stores); "edits" is what is applied
+    to the real object before the call."""
+    fn = rng.choice(["quso", "puso", "qubo", "pubo"])
+    kind = rng.choice(HIST_KINDS[fn])
+    deg2 = fn in ("quso", "qubo") or kind in DEG2
+    spin = fn in SPIN_FNS
+    labels = "int" if kind in MATRIX else rng.choice(Labels.STYLES)
+    num = rng.choice(["int", "frac", "float"])
+    top = rng.randint(0, 2)                # labels 0..top first, larger ones later
+    cur = {}                               # squashed key -> Fraction, in dict order
+    def keyof(hi, lo=0):
+        ln = rng.choice([1, 2, 2] if deg2 else [1, 2, 3, 3])
+        pool = list(range(lo, hi + 1))
+        k = rng.sample(pool, min(ln, len(pool)))
+        return k
+    def record(k, v):
+        sk = tuple(squashed(k, spin))
+        val = cur.get(sk, Fraction(0)) + Fraction(v)
+        if val == 0:
+            cur.pop(sk, None)
+        else:
+            cur[sk] = val
+    calls, ops = [], []
+    for ci in range(rng.randint(2, 4)):
+        edits = []
+        if ci == 0:
+            for _ in range(rng.randint(1, 4)):
+                edits.append(["add", keyof(top), rng.choice(COEFS)])
+            if rng.random() < 0.4:
+                edits.append(["add", [], rng.choice(COEFS)])
+        else:
+            for _ in range(rng.randint(1, 3)):
+                r = rng.random()
+                if r < 0.5 and top < 7:
+                    newtop = min(7, top + rng.randint(1, 3))
+                    k = keyof(newtop)
+                    if max(k) <= top:
+                        k[0] = newtop
+                    edits.append(["add", k, rng.choice(COEFS)])
+                    top = newtop
+                elif r < 0.65 and cur:
+                    k = rng.choice(list(cur))
+                    edits.append(["add", list(k), fs(-cur[k])])
+                elif r < 0.8:
+                    edits.append(["mul", rng.choice(["2", "-1", "1/2", "0", "3"])])
+                else:
+                    edits.append(["add", keyof(top), rng.choice(COEFS)])
+        for e in edits:
+            if e[0] == "add":
+                ops.append([e[1], e[2]]); record(e[1], e[2])
+            else:
+                c = Fraction(e[1])
+                for sk in list(cur):
+                    d = cur[sk] * (c - 1)
+                    if d != 0 or True:
+                        ops.append([list(sk), fs(d)]); record(list(sk), d)
+        r = rng.random()
+        if r < 0.6:
+            dur = rng.choice([0, 1, 2, 3, 5, 8])
+            sched = {"t": "explicit", "Ts": [rng.choice([0.0, 0.5, 1.0, rng.uniform(0.05, 4)]) for _ in range(dur)]}
+        else:
+            sched = {"t": "named", "name": rng.choice(["linear", "geometric"]), "duration": rng.randint(1, 10)}
+        init = None
+        if rng.random() < 0.4:
+            init = [[i, rng.choice([1, -1] if spin else [0, 1])] for i in range(top + 1)]
+        calls.append({"edits": edits, "ops": [list(o) for o in ops], "sched": sched, "init": init,
+                      "in_order": rng.random() < 0.5, "seed": rng.randrange(2 ** 31),
+                      "num_anneals": rng.choice([1, 1, 2, 3])})
+    return {"family": "history", "fn": fn, "kind": kind, "labels": labels, "num": num, "calls": calls}
+
+def history_calls(h):
+    """the calls of a history as `anneal` cases (cumulative ops)"""
+    return [dict(family="anneal", fn=h["fn"], kind=h["kind"], labels=h["labels"], num=h["num"], shape="history",
+                 ops=c["ops"], sched=c["sched"], init=c["init"], in_order=c["in_order"], seed=c["seed"],
+                 num_anneals=c["num_anneals"]) for c in h["calls"]]
+
+def run_history_impl(h):
+    """one real object; before every call its edits are applied in place; returns run_impl's tuple per call"""
+    L = Labels(h["labels"])
+    obj = cls_of(h["kind"])()
+    out = []
+    for call, c in zip(h["calls"], history_calls(h)):
+        for e in call["edits"]:
+            if e[0] == "add":
+                obj[L.key(e[1])] += num_of(e[2], h["num"])
+            else:
+                obj *= num_of(e[1], h["num"])
+        out.append(run_impl(c, prebuilt=(obj, L)))
+    return out
 
 # ------------------------------------------------------------------ kernel family (arbitrary floats)
 
@@ -520,6 +668,30 @@ def process(ctx, cases):
             ctx.violation(bad[0], c, bad[1])
         if "results" in canon:
             ctx.traces += 1
+    # histories on one object: every call is compared with the model of the cumulative history and checked by the oracle
+    h_cases = [c for c in cases if c["family"] == "history"]
+    himpls, hlines = [], []
+    for hc in h_cases:
+        rs = run_history_impl(hc)
+        himpls.append(rs)
+        hlines += [model_line(c, r[4]) for c, r in zip(history_calls(hc), rs)]
+    hmodels = common.run_driver(hlines)
+    pos = 0
+    for hc, rs in zip(h_cases, himpls):
+        calls = history_calls(hc)
+        ctx.case(hc, any(nontrivial(c, r[0], r[5]) for c, r in zip(calls, rs)))
+        ctx.count("history:%s:%s" % (hc["fn"], hc["kind"]))
+        for i, (c, (canon, res, obj, L, _sd, call, detail)) in enumerate(zip(calls, rs)):
+            m = canon_model(hmodels[pos]); pos += 1
+            ctx.count("history-call:" + ("err:" + canon["err"] if "err" in canon else ("kernel" if canon["call"] else "early")))
+            rep = dict(hc, calls=hc["calls"][:i + 1])       # the history up to the failing call
+            if canon != m:
+                ctx.diff("history", rep, canon, m)
+            bad = oracle(c, canon, res, obj, L, detail)
+            if bad:
+                ctx.violation(bad[0], rep, "call %d of a history on one %s object: %s" % (i + 1, hc["kind"], bad[1]))
+            if "results" in canon:
+                ctx.traces += 1
     klines, kimpls, kc2 = [], [], []
     for c in k_cases:
         impl, line, bad = run_kernel_impl(c)
@@ -582,13 +754,38 @@ def fixed_cases():
     out.append(dict(base, fn="puso", kind="PUSO", labels="tuple", shape="dup", ops=[[[0, 0, 1, 2, 3], "1"], [[0], "2"]]))
     out.append(dict(base, fn="pubo", kind="dict", labels="int", shape="dup", ops=[[[0, 0, 1], "1"], [[1, 1], "-1/2"]]))
     out.append(dict(base, fn="qubo", kind="QUBO", labels="str", shape="dup", ops=[[[0, 0], "1"], [[0, 1], "2"]]))
+    # a user-set mapping whose dict is not in index order (seed C11-4: labels looked up by dict order when packaging)
+    out.append(dict(base, fn="puso", kind="PCSO", labels="str", shape="mapping", num_anneals=3,
+                    ops=[[[0], "-5"], [[3], "5/4"], [[], "1/4"]], sched={"t": "explicit", "Ts": []},
+                    mapping={"how": "set_mapping", "pairs": [[0, 1], [3, 0]]}))
+    out.append(dict(base, fn="quso", kind="QUSO", labels="tuple", shape="mapping", init=[[0, 1], [1, -1], [2, -1]],
+                    ops=[[[0, 1], "1"], [[2], "-3/2"], [[1, 2], "1/2"]],
+                    mapping={"how": "set_reverse_mapping", "pairs": [[2, 1], [0, 2], [1, 0]]}))
+    return out
+
+def fixed_histories():
+    """a call, then growth of the same Matrix object with larger labels, then a call again (seed C17-4: a cached
+    max_index sizes N from the first call)"""
+    def call(edits, ops, Ts, seed):
+        return {"edits": edits, "ops": ops, "sched": {"t": "explicit", "Ts": Ts}, "init": None, "in_order": True,
+                "seed": seed, "num_anneals": 2}
+    out = []
+    for fn, kind in (("quso", "QUSOMatrix"), ("puso", "PUSOMatrix"), ("puso", "QUSOMatrix"), ("qubo", "QUBOMatrix"),
+                     ("pubo", "PUBOMatrix")):
+        out.append({"family": "history", "fn": fn, "kind": kind, "labels": "int", "num": "int", "calls": [
+            call([["add", [0, 1], "-1"]], [[[0, 1], "-1"]], [0.5], 1),
+            call([["add", [2, 3], "1"]], [[[0, 1], "-1"], [[2, 3], "1"]], [1.0, 0.5, 0.0], 2),
+            call([["mul", "0"], ["add", [5], "2"]], [[[0, 1], "-1"], [[2, 3], "1"], [[0, 1], "1"], [[2, 3], "-1"], [[5], "2"]],
+                 [1.0], 3)]})
     return out
 
 def check(ctx):
     rng = ctx.rng
-    cases = fixed_cases()
+    cases = fixed_cases() + fixed_histories()
     cases += [gen_case(rng) for _ in range(ctx.scale(4000, 60000))]
     cases += [gen_kernel_case(rng) for _ in range(ctx.scale(800, 10000))]
+    cases += [gen_mapping_case(rng) for _ in range(ctx.scale(400, 5000))]
+    cases += [gen_history(rng) for _ in range(ctx.scale(400, 5000))]
     process(ctx, cases)
     if ctx.diffs and not ctx.violations:
         search(ctx)
